@@ -70,6 +70,19 @@ func counterFloors(tier string) map[string]int64 {
 		"feat_stacking_zindex":     200 * k,
 		"feat_safe_float":          50 * k,
 		"feat_plain_table":         90 * k,
+		// page-based generated content: documents paginated twice (pagecount.go)
+		"docs_repaginated":             100 * k,
+		"pages_revisited":              4500 * k,
+		"generated_contents":           550 * k,
+		"generated_laid_out_once":      550 * k,
+		"generated_width_changed":      340 * k,
+		"docs_generated_width_changed": 90 * k,
+		"generated_values_exact":       540 * k,
+		"generated_split_over_pages":   5 * k,
+		"margin_counter_occurrences":   280 * k,
+		"feat_gen_page":                75 * k,
+		"feat_gen_pages":               75 * k,
+		"feat_gen_tpage":               90 * k,
 	}
 }
 
@@ -80,6 +93,7 @@ var (
 	allowFixedAnywhere   = false // F-C02-fixed-duplicated-after-push
 	allowEmptyRowGroup   = true  // F-C02-fixed-layout-empty-first-group (fixed: c3100ed)
 	allowGotextPreserved = true  // F-C02-gotext-preserved-space-text-not-cut (fixed: 58bd785)
+	allowFirstLetter     = false // F-C02-first-letter-lost: every ::first-letter style loses the letter
 )
 
 func init() {
@@ -91,6 +105,8 @@ func init() {
 			allowEmptyRowGroup = true
 		case "gotextws":
 			allowGotextPreserved = true
+		case "firstletter":
+			allowFirstLetter = true
 		}
 	}
 }
@@ -131,6 +147,14 @@ type gen struct {
 	inA     bool
 	gotext  bool // go-text engine: preserved white space is excluded (finding gotext-preserved-space)
 	pageSel int  // px by which page selectors may shrink the content height of some pages
+
+	// page-based generated content (pagecount.go): documents whose pages are made again
+	pc          bool          // the document holds ::before / ::after content with page-based counters
+	css         []string      // style rules written for the pseudo-elements
+	gens        []*GenContent // declared pseudo-element contents
+	targets     []string      // ids usable as target of target-counter()
+	hrefs       int           // <a href> placeholders resolved once all targets are known
+	hrefTargets map[int]string
 }
 
 func (g *gen) cur() *Flow { return g.stack[len(g.stack)-1] }
@@ -324,6 +348,10 @@ func (g *gen) inlineContent(n int) {
 			g.sb.WriteString("&nbsp;")
 			g.word()
 			g.f("nbsp")
+		case x < 0.265 && g.pc && !g.inHdr && g.inInl < 3:
+			g.genSpan()
+		case x < 0.29 && g.pc && !g.inHdr:
+			g.targetSpan()
 		default:
 			g.word()
 		}
@@ -672,6 +700,26 @@ func (g *gen) paragraph() {
 	st := g.blockStyle(true)
 	id := ""
 	restore := g.hideMaybe(&id, &st)
+	if g.pc && !g.inHdr && g.chance(0.3) {
+		if id == "" {
+			id = g.newID("e")
+		}
+		g.pseudo(id, false)
+		g.targets = append(g.targets, id)
+	} else if allowFirstLetter && !g.pc && !g.inHdr && g.chance(0.15) {
+		// ::first-letter (inline form): the letter moves into a box of its own and stays part of the
+		// text of the paragraph.  Not in documents with ::before / ::after content (the letter is
+		// taken from generated content that starts the paragraph).
+		if id == "" {
+			id = g.newID("e")
+		}
+		g.css = append(g.css, "#"+id+"::first-letter{"+g.pick("color:#c00", "font-weight:bold", "background:#ff0", "padding:0 2px", "border:1px solid #c00", "font-size:150%")+"}")
+		if g.maxFS < 36 {
+			g.maxFS = 36
+		}
+		g.vsum += 4
+		g.f("first_letter")
+	}
 	g.sb.WriteString("<" + tag + attrs(id, st) + ">")
 	n := 1 + g.r.Intn(12)
 	if g.chance(0.15) {
@@ -747,6 +795,12 @@ func (g *gen) list() {
 			g.hidden = append(g.hidden, id)
 		}
 		restore := g.hideMaybe(&id, &keep)
+		if g.pc && !g.inHdr {
+			if g.chance(0.2) {
+				g.pseudo(id, false)
+			}
+			g.targets = append(g.targets, id)
+		}
 		g.sb.WriteString("<li" + attrs(id, keep) + ">")
 		if m := markerText(lstype, k+1); m != "" {
 			g.items = append(g.items, Item{ID: id, Marker: m})
@@ -995,6 +1049,9 @@ func Generate(r *rand.Rand, i int, tier string) Input {
 		engine = "gotext"
 		g.gotext = true
 	}
+	// page-based counters in generated content: the pages holding them are made again once the
+	// counter values are known (second pagination pass)
+	g.pc = r.Intn(100) < pcPercent
 	lh := float64(g.fs) * g.lhf
 	wEm := 3 + r.Intn(58)
 	switch r.Intn(5) {
@@ -1047,8 +1104,11 @@ func Generate(r *rand.Rand, i int, tier string) Input {
 
 	// running elements (CSS GCPM): taken out of the flow, shown in a page-margin box of every page
 	// from the page of their anchor on
+	// ... and only in documents whose pages are made once: a second pagination pass that moves the
+	// anchor to a later page leaves the registration of the first pass behind (finding
+	// running-element-stale-after-repagination)
 	var runNames []string
-	if r.Intn(100) < 8 {
+	if r.Intn(100) < 8 && !g.pc {
 		runNames = append(runNames, "hd")
 		if r.Intn(3) == 0 {
 			runNames = append(runNames, "ft")
@@ -1114,6 +1174,19 @@ func Generate(r *rand.Rand, i int, tier string) Input {
 	if len(runNames) > 0 && pm < 10 {
 		pm = 20
 	}
+	// page numbering in a page-margin box: "page / pages" on every page (made after the pagination
+	// is final, so the values are exact)
+	var marginParts []GenPart
+	marginAt := ""
+	if g.pc && r.Intn(3) == 0 {
+		marginAt = g.pick("bottom-left", "top-right")
+		marginParts = []GenPart{{Kind: "page", Style: g.counterStyle()}, {Kind: "lit", Lit: g.pick("/", ":", "(")}, {Kind: "pages", Style: g.counterStyle()}}
+		if pm < 10 {
+			pm = 20
+		}
+		g.f("margin_page_counter")
+	}
+	g.resolveTargets()
 	pageH := g.pageH
 	mode := "paged"
 	if g.single {
@@ -1131,15 +1204,22 @@ func Generate(r *rand.Rand, i int, tier string) Input {
 	for _, n := range runNames {
 		pageSt += fmt.Sprintf("@page{@%s{content:element(%s);font-family:%s;font-size:8px}}", map[string]string{"hd": g.pick("top-center", "top-left"), "ft": g.pick("bottom-center", "bottom-right")}[n], n, font)
 	}
+	if marginAt != "" {
+		pageSt += fmt.Sprintf("@page{@%s{content:%s;font-family:%s;font-size:8px;white-space:nowrap}}", marginAt, contentCSS(marginParts, false), font)
+	}
 	if g.pageSel > 0 {
 		pageSt += fmt.Sprintf("@page :left{margin-top:%dpx}@page :first{margin-bottom:%dpx}", pm+g.pageSel, pm+r.Intn(g.pageSel+1))
 	}
 	html := "<!DOCTYPE html><html><head><meta charset=\"utf-8\"><style>" + pageSt +
 		"html{margin:0;padding:0}" +
 		"body{" + strings.Join(bodySt, ";") + "}" +
-		"</style></head><body>\n" + g.sb.String() + "</body></html>"
+		strings.Join(g.css, "") +
+		"</style></head><body>\n" + g.body() + "</body></html>"
 
-	in := Input{HTML: html, Engine: engine, Hidden: g.hidden, Items: g.items, Mode: mode}
+	in := Input{HTML: html, Engine: engine, Hidden: g.hidden, Items: g.items, Mode: mode, MarginCounter: marginParts}
+	for _, gc := range g.gens {
+		in.Generated = append(in.Generated, *gc)
+	}
 	for _, f := range g.flows {
 		in.Flows = append(in.Flows, *f)
 	}
